@@ -120,8 +120,12 @@ def evaluate(world, run):
         # ---------------------------------------------------------------- C09
         # 1. termination
         if ex["timed_out"] and step.get("peer_parked"):
-            # blocked on a lock that the parked process holds: a suspended peer is not this process's fault
-            observe("blocked_by_parked_peer_until_killed")
+            # Another process sits suspended in the middle of a write to the cache (or to the project) and
+            # holds its locks for as long as it is suspended. The unchanged tree gives up on the cache after
+            # SQLite's busy timeout and either goes on without it or fails with "database is locked"
+            # within seconds; waiting for ever on somebody else's lock is a hang.
+            viol("C09", "terminates", "blocked-forever-while-another-process-is-suspended", ex,
+                 f"killed after {ex['wall_s']} s: the process never gave up waiting for a lock held by a suspended pavexc process")
             continue
         if ex["timed_out"]:
             viol("C09", "terminates", "wall-clock-timeout", ex,
